@@ -17,7 +17,7 @@
    3 `read_window(data).unwrap()` in contains, 4 usize underflow in the label
    distance computations, 5 `nsec3s.first().unwrap()`, 6 `unreachable!()` in
    the NSEC3 linking loop. *)
-From Coq Require Import NArith List Bool.
+From Coq Require Import NArith Arith List Bool Sorted.
 From DV Require Import Base.Outcome Base.Bytes Base.Lex Base.Names C13.Gen C11.Sha.
 Import ListNotations.
 Local Open Scope N_scope.
@@ -107,7 +107,7 @@ Definition rec := (name * N)%type.
 Definition group := (name * list N)%type.   (* owner as spelled by the first record, its rtypes *)
 
 (* ToLabelIter::ends_with: walk both label iterators from the back *)
-Fixpoint ends_with_rev (n b : list label) : bool :=
+Fixpoint ends_with_rev (n b : list label) {struct b} : bool :=
   match b with
   | [] => true
   | bl :: b' =>
@@ -210,16 +210,16 @@ Fixpoint nsec_loop (apex : name) (dnskey : bool) (gs : list group)
       if negb (is_in_zone apex g) then nsec_finish apex prev ttl acc
       else if below_cut cut (fst g) then nsec_loop apex dnskey gs' cut prev ttl acc
       else
-        let name := fst g in
+        let nm := fst g in
         let at_cut := is_zone_cut apex g in
-        let cut' := if at_cut then Some name else None in
+        let cut' := if at_cut then Some nm else None in
         do acc' <- match prev with
-                   | Some (pn, bm) => if ttl then Ok (mk_nsec pn name bm :: acc) else Panic 1
+                   | Some (pn, bm) => if ttl then Ok (mk_nsec pn nm bm :: acc) else Panic 1
                    | None => Ok acc
                    end;
         do v <- nsec_visit apex dnskey at_cut g ttl;
         let '(bm, ttl') := v in
-        nsec_loop apex dnskey gs' cut' (Some (name, bm)) ttl' acc'
+        nsec_loop apex dnskey gs' cut' (Some (nm, bm)) ttl' acc'
   end.
 
 Definition generate_nsecs (apex : name) (dnskey : bool) (z : list rec) : outcome (list nsec) :=
@@ -290,12 +290,12 @@ Fixpoint ents_insert (ents : list name) (n : name) : list name :=
   end.
 
 (* for n in (1..=distance-1).rev(): name.iter_labels().skip(n).take(dta - n) ++ apex *)
-Fixpoint ent_loop (apex name : name) (dta : nat) (k : nat) (ents : list name) : list name :=
+Fixpoint ent_loop (apex nm : name) (dta : nat) (k : nat) (ents : list name) : list name :=
   match k with
   | O => ents
   | S k' =>
-      let ent := firstn (dta - k) (skipn k name) ++ apex in
-      ent_loop apex name dta k' (ents_insert ents ent)
+      let ent := firstn (dta - k) (skipn k nm) ++ apex in
+      ent_loop apex nm dta k' (ents_insert ents ent)
   end.
 
 Definition nsec3_bitmap (c : n3cfg) (at_cut has_ds at_apex : bool) (ts : list N) (ttl : bool)
@@ -319,25 +319,25 @@ Fixpoint n3_loop (apex : name) (c : n3cfg) (excl : bool) (gs : list group)
       if negb (is_in_zone apex g) then Ok (acc, ents, ttl)
       else if below_cut cut (fst g) then n3_loop apex c excl gs' cut stack ents ttl acc
       else
-        let name := fst g in
+        let nm := fst g in
         let at_cut := is_zone_cut apex g in
-        let cut' := if at_cut then Some name else None in
+        let cut' := if at_cut then Some nm else None in
         let has_ds := memN rt_DS (snd g) in
         if excl && at_cut && negb has_ds then n3_loop apex c excl gs' cut' stack ents ttl acc
         else
-          let '(last_nent, stack') := pop_until name stack in
+          let '(last_nent, stack') := pop_until nm stack in
           do last_dist <- match last_nent with
                           | Some s => label_dist s apex
                           | None => Ok O
                           end;
-          do dta <- label_dist name apex;
+          do dta <- label_dist nm apex;
           let ents' := if (last_dist <? dta)%nat
-                       then ent_loop apex name dta (dta - last_dist - 1) ents
+                       then ent_loop apex nm dta (dta - last_dist - 1) ents
                        else ents in
           do r <- nsec3_bitmap c at_cut has_ds (dta =? 0)%nat (snd g) ttl;
           let '(bm, ttl') := r in
-          do p <- mk_pre c name bm;
-          let stack'' := name :: match last_nent with Some s => s :: stack' | None => stack' end in
+          do p <- mk_pre c nm bm;
+          let stack'' := nm :: match last_nent with Some s => s :: stack' | None => stack' end in
           n3_loop apex c excl gs' cut' stack'' ents' ttl' (p :: acc)
   end.
 
